@@ -456,6 +456,29 @@ def matrix_specs():
         specs.append({'id': 'matrix-reloc-%s' % lib, 'roots': [RELOC[0]],
                       'env': {ENVVAR: RELOC[0]}, 'lives': [{'ops': [
                           {'op': 'load_name', 'lib': lib}]}]})
+    libs = libraries(read_tree())
+    small = [l for l in libs if l not in ('BensonGA', 'PPY')]
+    # a failed first resolution resolves nothing: the override is corrected
+    # in the same process and the load by name must then work
+    for lib in small[:3]:
+        specs.append({'id': 'matrix-recover-%s' % lib, 'roots': [RELOC[0]],
+                      'env': {ENVVAR: '/sim/no-such-dir'}, 'lives': [{'ops': [
+                          {'op': 'load_name', 'lib': lib},
+                          {'op': 'setenv', 'value': RELOC[0]},
+                          {'op': 'load_name', 'lib': lib}]}]})
+    # the same relative path names another library after a chdir
+    for a, b in zip(small, small[1:] + small[:1]):
+        specs.append({'id': 'matrix-relpath-%s-%s' % (a, b),
+                      'roots': [ELSEWHERE], 'env': {}, 'lives': [{'ops': [
+                          {'op': 'chdir', 'dir': ELSEWHERE + '/' + a},
+                          {'op': 'load_path', 'lib': a, 'root': ELSEWHERE,
+                           'rel': 'lib'},
+                          {'op': 'chdir', 'dir': ELSEWHERE + '/' + b},
+                          {'op': 'load_path', 'lib': b, 'root': ELSEWHERE,
+                           'rel': 'lib'},
+                          {'op': 'chdir', 'dir': ELSEWHERE},
+                          {'op': 'load_path', 'lib': a, 'root': ELSEWHERE,
+                           'rel': 'root'}]}]})
     return specs
 
 
@@ -614,10 +637,11 @@ def summarise(results):
                 'tuple; non-trivial = at least one load ran',
         'samples': samples,
         'exhaustive': False,
-        'exhaustive_finite_part': '%d matrix scenarios = every shipped '
+        'exhaustive_finite_part': '%d fixed scenarios = every shipped '
         'library x {by name, by explicit path, relocated via the override '
-        'with the bundled directory absent}; sweep over every group, '
-        'pattern, remap and uncertainty entry of every library' % nmat,
+        'with the bundled directory absent} + recover-after-wrong-override '
+        '+ relative-path sequences; sweep over every group, pattern, remap '
+        'and uncertainty entry of every library' % nmat,
         'scenario_kinds': kinds,
         'loads': stats['loads'], 'process_lifetimes': stats['lives'],
         'sweep_evaluations': stats['sweep_evals'],
